@@ -1,6 +1,17 @@
 """Executed by each *runtime* interpreter (3.8 .. 3.13): exec the source, eval each converted text, report stdout.
 usage: python c15_runtime.py in.json out.json     (pure stdlib, must stay valid Python 3.8)"""
-import contextlib, io, json, sys
+import contextlib, io, json, signal, sys
+
+
+class _Slow(BaseException):
+    pass
+
+
+def _alarm(signum, frame):
+    raise _Slow()
+
+
+LIMIT = 10.0      # seconds per program; a program that needs more is skipped, not judged
 
 
 def run(code, mode):
@@ -12,11 +23,18 @@ def run(code, mode):
     except RecursionError:
         return ["nocompile", "RecursionError"]
     try:
-        with contextlib.redirect_stdout(buf):
-            if mode == "exec":
-                exec(c, {"__name__": "__main__"})
-            else:
-                eval(c, {"__name__": "__main__"})
+        signal.signal(signal.SIGALRM, _alarm)
+        signal.setitimer(signal.ITIMER_REAL, LIMIT)
+        try:
+            with contextlib.redirect_stdout(buf):
+                if mode == "exec":
+                    exec(c, {"__name__": "__main__"})
+                else:
+                    eval(c, {"__name__": "__main__"})
+        finally:
+            signal.setitimer(signal.ITIMER_REAL, 0)
+    except _Slow:
+        return ["slow", ""]
     except BaseException as e:
         return ["raises", type(e).__name__ + ": " + str(e)[:80], buf.getvalue()]
     return ["ok", buf.getvalue()]
